@@ -25,6 +25,8 @@ func main() {
 		rangeMain(os.Args[2:])
 	case "codec":
 		codecMain(os.Args[2:])
+	case "doc":
+		docMain(os.Args[2:])
 	case "schema":
 		schemaMain(os.Args[2:])
 	default:
